@@ -2,6 +2,7 @@ package props
 
 import (
 	"bytes"
+	"crypto/tls"
 	"errors"
 	"io"
 	"os"
@@ -38,9 +39,10 @@ const (
 	tERRd  = 'r' // ... and a read error in the same Read
 	tPANIC = 'P' // the handler of the next whole message panics (recovered by the library, connection closed)
 	eW     = 'W' // a write that hits a temporary transport error and is resumed (the connection stays up)
+	tTEMP  = 'M' // a transport read error that calls itself temporary (not a timeout): a read error all the same
 )
 
-const c14Terms = "ERBTLerP"
+const c14Terms = "ERBTLerPM"
 
 func isTermination(e byte) bool { return strings.IndexByte(c14Terms, e) >= 0 }
 
@@ -185,6 +187,8 @@ func runC14(c *ev.Case, ctx *lib.Ctx, order string, waits bool, lc *logCapture) 
 			mc.FeedEOF()
 		case tERR:
 			mc.FeedErr(errors.New("connection reset by peer"))
+		case tTEMP:
+			mc.FeedErr(&memnet.TempError{Msg: "temporary read error"})
 		case tBAD, tBADT:
 			// complete the message in progress first, so that the undecodable one starts on a boundary
 			if r := delivered % c14MsgLen; r != 0 {
@@ -424,6 +428,70 @@ func TestC14(t *testing.T) {
 		o := orders[c.R.IntN(len(orders))]
 		c.Class("racing/term=%s", term(o))
 		run(c, term(o), func() { runC14(c, ctx, o, false, lc) })
+	})
+	// a TLS client connection whose handshake fails (DialTLS hands out the Conn before the
+	// handshake has run): CloseNotify requested before, during or after the failure
+	rec.Suite("tls-client-handshake-failure", 9*rec.N(2, 40), func(c *ev.Case) {
+		when, kind := c.I%3, (c.I/3)%3
+		c.Class("tls-client/requested=%s/failure=%s", []string{"before", "during", "after"}[when], []string{"garbage", "eof", "reset"}[kind])
+		run(c, "tls-handshake", func() {
+			sig := func(op string) ev.Sig {
+				return ev.Sig{"op": op, "termination": "tls-handshake-failure", "variant": "tls-client"}
+			}
+			mc := memnet.NewConn()
+			ns := &notifySet{}
+			conn, err := diam.NewConn(tls.Client(mc, &tls.Config{InsecureSkipVerify: true}), "peer", diam.HandlerFunc(func(diam.Conn, *diam.Message) {}), ctx.Parser)
+			if err != nil {
+				c.Fail(sig("setup"), nil, nil, "NewConn: %v", err)
+				return
+			}
+			if when == 0 {
+				ns.add(conn.(diam.CloseNotifier).CloseNotify())
+			}
+			synctest.Wait()
+			if len(mc.Written()) == 0 {
+				c.Fail(sig("setup"), nil, nil, "the TLS client wrote nothing")
+				return
+			}
+			if when == 1 {
+				ns.add(conn.(diam.CloseNotifier).CloseNotify())
+				synctest.Wait()
+			}
+			if _, closed := ns.state(); closed != 0 {
+				c.Fail(sig("closed-before-termination"), nil, nil, "a CloseNotify channel is closed while the TLS handshake is still waiting for the peer")
+				return
+			}
+			switch kind {
+			case 0:
+				mc.Feed([]byte("HTTP/1.0 400 Bad Request\r\n\r\n"))
+			case 1:
+				mc.FeedEOF()
+			default:
+				mc.FeedErr(errors.New("connection reset by peer"))
+			}
+			synctest.Wait()
+			if when == 2 {
+				ns.add(conn.(diam.CloseNotifier).CloseNotify())
+				synctest.Wait()
+			}
+			mc.FeedEOF()
+			synctest.Wait()
+			if total, closed := ns.state(); closed != total {
+				c.Fail(sig("not-closed-after-termination"), nil, nil, "the TLS handshake of a client connection failed (%s) but the CloseNotify channel requested %s is not closed at quiescence",
+					[]string{"garbage from the peer", "EOF", "connection reset"}[kind], []string{"before", "during the handshake", "after the failure"}[when])
+				return
+			}
+			if mc.CloseCount() == 0 {
+				c.Fail(sig("transport-not-closed"), nil, nil, "the transport was never closed after the failed TLS handshake")
+				return
+			}
+			if gs := libGoroutines(); len(gs) != 0 {
+				c.Fail(sig("goroutine-left"), nil, gs[0].Stack, "%d library goroutine(s) still exist after the failed TLS handshake: %s", len(gs), topLibFrame(gs[0].Stack))
+				return
+			}
+			c.Event("tls_client_failures", 1)
+			c.Event("channels_checked", 1)
+		})
 	})
 	// CloseNotify requested from other goroutines exactly while the connection
 	// terminates, on the real scheduler (no bubble): thousands of rounds with a
